@@ -77,6 +77,29 @@ func (o Out) Describe() string {
 
 // Run executes sql on doc through the public API. doc is used as given (callers pass a private
 // copy unless they want to observe mutation).
+// RunN is Run with the same Query object executed n times; the outcome of the last execution counts.
+func RunN(doc map[string]any, sql string, o Opts, n int, extra ...genql.QueryOption) (out Out) {
+	defer func() {
+		if r := recover(); r != nil {
+			out = Out{Panic: fmt.Sprintf("%v\n%s", r, trimStack(debug.Stack()))}
+		}
+	}()
+	opts := append(o.list(), extra...)
+	q, err := genql.New(doc, sql, opts...)
+	if err != nil {
+		return Out{Err: err.Error(), AtNew: true}
+	}
+	for i := 0; i < n; i++ {
+		rows, err := q.Exec()
+		if err != nil {
+			out = Out{Err: err.Error(), ErrRows: len(rows)}
+			continue
+		}
+		out = Out{Raw: rows, Rows: val.NormRows(rows)}
+	}
+	return out
+}
+
 func Run(doc map[string]any, sql string, o Opts, extra ...genql.QueryOption) (out Out) {
 	defer func() {
 		if r := recover(); r != nil {
